@@ -236,6 +236,7 @@ func vCanonical(items []vItem) vSpelling {
 func H_respell() {
 	vUseNames(vParamInt("names"))
 	vCustomFlags = vParamInt("custom") == 1
+	vCustomVals = vParamInt("custom") == 2
 	spec := vParamString("spec")
 	vFlagsOnly = vParamInt("flagsOnly") == 1
 	items := vItems(vParamInt("n"), vParamInt("Lp"))
@@ -263,6 +264,7 @@ func H_respell() {
 // C11
 func H_swap() {
 	vCustomFlags = vParamInt("custom") == 1
+	vCustomVals = vParamInt("custom") == 2
 	spec := vParamString("spec")
 	vFlagsOnly = vParamInt("flagsOnly") == 1
 	items := vItems(vParamInt("n"), vParamInt("Lp"))
